@@ -44,7 +44,8 @@ Scalars == {Null, [t |-> "bool", tf |-> TRUE], [t |-> "int", n |-> "0"], [t |-> 
 \* (a type name, valid base64, invalid base64, a non-string) -- kept small, the keys carry the variety
 DictVals == {Null, [t |-> "int", n |-> "0"], Str(TypeName), Str("AAAA"), Str("w")}
 BytesVals == { [t |-> "bytes", b |-> b] : b \in BytesIds }
-BytesIOVals == { [t |-> "bytesio", b |-> b] : b \in BytesIds }
+Positions == {"start", "mid", "end"}            \* where a caller may have left the stream before to_json
+BytesIOVals == { [t |-> "bytesio", b |-> b, pos |-> ps] : b \in BytesIds, ps \in Positions }
 
 (* ---- meta schema: one field per shape of hint found in the registry ---- *)
 PStr == [k |-> "prim", p |-> "str"]
@@ -80,11 +81,11 @@ MetaE == [ schema |-> MetaSchema,
                         [] OTHER -> "ERR"] ]
 
 LeafVals == { [t |-> "dc", c |-> "Leaf", f |-> << <<"s", s>>, <<"b", b>>, <<"o", o>> >>] :
-                 s \in { Str(TypeName), Str("_bytes") }, b \in BytesVals, o \in {Null, [t |-> "bytesio", b |-> "000000"]} }
+                 s \in { Str(TypeName), Str("_bytes") }, b \in BytesVals, o \in {Null} \cup { [t |-> "bytesio", b |-> "000000", pos |-> ps] : ps \in Positions } }
 DCVals(c) == IF Mode = "meta" THEN LeafVals ELSE { [t |-> "dcref", i |-> n] : n \in 0..1 }
 
 AnyVals(lvl) ==
-    Scalars \cup BytesVals \cup { [t |-> "bytesio", b |-> "000000"] } \cup DCVals("")
+    Scalars \cup BytesVals \cup { [t |-> "bytesio", b |-> "000000", pos |-> ps] : ps \in {"start", "end"} } \cup DCVals("")
     \cup { [t |-> "dict", kv |-> kv] : kv \in KVs(DictVals, Wd(lvl)) }
     \cup { [t |-> "list", xs |-> xs] : xs \in SeqsUpTo(Scalars, Wd(lvl)) }
 
